@@ -117,8 +117,9 @@ structure PKDerived (F : Type) where
   permCosets : List (List F)
 
 /-- `permutation/keygen.rs: compute_polys_and_cosets(domain, p, permutations)` under `t`
-threads, `ncols = p.columns.len()`; `none` = `permutations[i]` out of bounds (a key file with
-fewer permutation polynomials than the circuit has permutation columns). -/
+threads, `ncols = p.columns.len()`; `none` = `permutations[i]` out of bounds (fewer permutation
+polynomials than permutation columns: cannot happen after `ProvingKey::read` any more, which
+refuses such a file — `readPK`, `pk_read_counts_checked`; the function itself still indexes). -/
 def computePolysAndCosets (t : Nat) (d : EDom F) (ncols : Nat) (perms : List (List F)) :
     Option (List (List F) × List (List F)) :=
   if perms.length < ncols then none else
